@@ -302,6 +302,10 @@ func runC17(c *Ctx) {
 			if u, ok := v.(*ssa.UnOp); ok && u.Op == token.MUL && flow.IsFieldLoad(v, gcePkg, "SevPolicyOptions", "LaunchVmsas") {
 				return 0, true
 			}
+			// the gate may itself let an overwrite through (the caller's `if !opts.Overwrite` moved inside)
+			if u, ok := v.(*ssa.UnOp); ok && u.Op == token.MUL && flow.IsFieldLoad(v, gcePkg, "SevPolicyOptions", "Overwrite") {
+				return 1, true
+			}
 			return 0, false
 		}
 		r.Match = func(in ssa.Instruction) []esp.Ev {
@@ -357,7 +361,7 @@ func runC17(c *Ctx) {
 			return s, ""
 		}
 		r.AtReturn = func(x *esp.Ctx, s esp.State, rets []esp.Abs) string {
-			if rets[0] == esp.NonZero {
+			if rets[0] == esp.NonZero || s.Flag(1) == esp.NonZero {
 				return ""
 			}
 			if !s.Has(bPolUnset) && !s.Has(bPolEq) {
@@ -428,10 +432,6 @@ func runC17(c *Ctx) {
 	}
 
 	// ---- R4 provenance ----
-	isPemDecode := func(v ssa.Value) bool {
-		call, ok := v.(*ssa.Call)
-		return ok && calleeIs(call, "encoding/pem.Decode")
-	}
 	for _, f := range c.P.RepoFunctions() {
 		if load.RelPkg(f) != "gcetcbendorsement" || c.isTestFunc(f) {
 			continue
@@ -447,33 +447,7 @@ func runC17(c *Ctx) {
 					okSrc, okType := false, false
 					if call, ok := st.Val.(*ssa.Call); ok && len(call.Call.Args) >= 2 {
 						elem := call.Call.Args[1]
-						// element: load of field Bytes of a pem.Block returned by pem.Decode of CaBundle-derived bytes
-						var blockVal ssa.Value
-						sl.Visit(elem, func(v ssa.Value) bool {
-							if isPemDecode(v) {
-								blockVal = v
-								if sl.Derives(v.(*ssa.Call).Call.Args[0], sevGetter("CaBundle")) {
-									okSrc = true
-								}
-								return false
-							}
-							return true
-						}, nil)
-						if blockVal != nil {
-							for _, cf := range dominatingConds(b) {
-								bo, ok := cf.Cond.(*ssa.BinOp)
-								if !ok || (bo.Op != token.NEQ && bo.Op != token.EQL) {
-									continue
-								}
-								k, isK := bo.Y.(*ssa.Const)
-								if !isK || k.Value == nil || k.Value.Kind() != constant.String || constant.StringVal(k.Value) != "CERTIFICATE" {
-									continue
-								}
-								if (bo.Op == token.NEQ) != cf.Val && sl.Derives(bo.X, func(x ssa.Value) bool { return x == blockVal }) {
-									okType = true
-								}
-							}
-						}
+						okSrc, okType = c.pemBlockProvenance(sl, elem, b, sevGetter("CaBundle"))
 					}
 					// a membership / de-duplication guard in front of the append has to consult the list that is
 					// being extended: a test against the sibling list drops a key the endorsement carries
@@ -508,4 +482,100 @@ func runC17(c *Ctx) {
 func isNilK(v ssa.Value) bool {
 	k, ok := v.(*ssa.Const)
 	return ok && k.Value == nil
+}
+
+// pemBlockProvenance decides, for a value that is (derived from) the Bytes of a PEM block appended to a trusted-key
+// list in block b: (src) the block was decoded by pem.Decode from bytes derived from the endorsement's CA bundle, and
+// (typ) the append is reached only where the block's Type was found equal to "CERTIFICATE". Both may be
+// established in the appending function itself or in a helper that decodes and checks the block and returns it
+// together with an error the caller tested.
+func (c *Ctx) pemBlockProvenance(sl *flow.Slicer, elem ssa.Value, b *ssa.BasicBlock, fromBundle func(ssa.Value) bool) (src, typ bool) {
+	isPemDecode := func(v ssa.Value) bool {
+		call, ok := v.(*ssa.Call)
+		return ok && calleeIs(call, "encoding/pem.Decode")
+	}
+	lsl := flow.NewSlicer(c.P)
+	lsl.LiftParams = 3
+	lsl.Transparent = sl.Transparent
+	typeChecked := func(blk *ssa.BasicBlock, blockVal ssa.Value) bool {
+		for _, cf := range dominatingConds(blk) {
+			bo, ok := cf.Cond.(*ssa.BinOp)
+			if !ok || (bo.Op != token.NEQ && bo.Op != token.EQL) {
+				continue
+			}
+			k, isK := bo.Y.(*ssa.Const)
+			if !isK || k.Value == nil || k.Value.Kind() != constant.String || constant.StringVal(k.Value) != "CERTIFICATE" {
+				continue
+			}
+			if (bo.Op == token.NEQ) != cf.Val && lsl.Derives(bo.X, func(x ssa.Value) bool { return x == blockVal }) {
+				return true
+			}
+		}
+		return false
+	}
+	// the decode call the element comes from, and the helper call (if any) through which it was returned
+	var decode *ssa.Call
+	var via *ssa.Call
+	lsl.Visit(elem, func(v ssa.Value) bool {
+		if isPemDecode(v) {
+			decode = v.(*ssa.Call)
+			return false
+		}
+		if call, ok := v.(*ssa.Call); ok && via == nil {
+			if g := call.Call.StaticCallee(); g != nil && load.FuncInRepo(g) && g.Blocks != nil && !flow.IsProtoGetter(g) {
+				via = call
+			}
+		}
+		return true
+	}, nil)
+	if decode == nil {
+		return false, false
+	}
+	src = lsl.Derives(decode.Call.Args[0], fromBundle)
+	if decode.Parent() == b.Parent() {
+		return src, typeChecked(b, decode)
+	}
+	// decoded in a helper: the helper returns the block only behind the type check, and the caller reaches the
+	// append only where the helper's error was nil
+	if via == nil {
+		return src, false
+	}
+	h := decode.Parent()
+	okHelper := true
+	nret := 0
+	ei := errIndex(h.Signature)
+	for _, hb := range h.Blocks {
+		ret, ok := hb.Instrs[len(hb.Instrs)-1].(*ssa.Return)
+		if !ok || ei < 0 {
+			continue
+		}
+		if k, isK := ret.Results[ei].(*ssa.Const); !isK || !k.IsNil() {
+			continue // error return
+		}
+		nret++
+		if !typeChecked(hb, decode) {
+			okHelper = false
+		}
+	}
+	if ei < 0 || nret == 0 || !okHelper || via.Call.StaticCallee() != h {
+		return src, false
+	}
+	// caller side: the append's block is dominated by the nil edge of the helper call's error
+	for _, cf := range dominatingConds(b) {
+		bo, ok := cf.Cond.(*ssa.BinOp)
+		if !ok || (bo.Op != token.NEQ && bo.Op != token.EQL) {
+			continue
+		}
+		if !isNilK(bo.Y) {
+			continue
+		}
+		ex, ok := bo.X.(*ssa.Extract)
+		if !ok || ex.Tuple != ssa.Value(via) || ex.Index != ei {
+			continue
+		}
+		if (bo.Op == token.EQL) == cf.Val {
+			return src, true
+		}
+	}
+	return src, false
 }
